@@ -423,6 +423,7 @@ class Ctx:
         self.extra = {}
         self.proof_broken = None   # text when a proof obligation / build failed
         self.exe = None
+        self.driver_pid = pid      # a property may reuse another property's extracted driver
 
     # -- bookkeeping
     def quick(self):
@@ -445,7 +446,7 @@ class Ctx:
 
     def model(self, lines, timeout=1800):
         if self.exe is None:
-            self.exe = build_driver(self.pid)
+            self.exe = build_driver(self.driver_pid)
         return run_model(self.exe, lines, timeout)
 
     def impl(self, script, payload, timeout=3000, extra_env=None):
